@@ -574,7 +574,8 @@ def register(T, repo):
             t.fields[f] = fresh_bool(f)
             st.writes.append((t.oid, f))
     T.add(FContract(
-        RPA + '.<locals>.eval', params={'t': AnyS()},
+        RPA + '.<locals>.eval',
+        params={'t': tm.TokS(lambda ex, t: True)},
         effects=eval_effects, returns_param='t'))
 
     c = T.add(FContract(
